@@ -19,6 +19,8 @@ var loxVocab = []string{
 	"(", ")", "{", "}", "[", "]", "=", "|", ",", "-", "~", ".", "?", "*", "*?", "+", "+?", "*!", "\\", "\n", "\n", " ",
 	"A", "B", "NUM", "expr", "s", "x", "0", "1", "99999999999999999999", "'a'", "''", "'\\n'", "'\\", "'\\x4'", "'\\u12'", "[a-z]", "[\\]", "[z-a]", "[\\x]", "~[a]", "[a]-[b]",
 	"(1)", "(0)", "()", "//", "/* */", "\t", "é", "\xff",
+	// escapes at and beyond the limits of the numeric types involved (int32 / uint32 / code-point range / surrogates)
+	"'\\U80000000'", "[\\UFFFFFFFF]", "'\\U7FFFFFFF'", "'\\U00110000'", "[\\U0010FFFF-\\U00110000]", "'\\uD800'", "[\\uDFFF]", "'\\xFF'", "'\\x00'", "[\\x00-\\U0010FFFF]", "'\\u0000'",
 }
 
 var goVariants = map[string]string{
@@ -264,6 +266,12 @@ func checkC12(c *checkCtx) {
 				all += files[n]
 			}
 			addJob("single-fault specification: "+sp.fault, all, okGo, true)
+		}
+	}
+	// every vocabulary word that is a literal or a class, alone in an otherwise valid specification
+	for _, w := range loxVocab {
+		if len(w) >= 2 && (w[0] == '\'' || w[0] == '[' || w[0] == '~') {
+			addJob("literal/class at a numeric limit", "@lexer\nA = 'a' "+w+"\nB = 'b'\n@parser\n@start s = A B\n", "package main\n\ntype Token struct{ Type int }\ntype P struct{ lox }\n\nfunc (p *P) on_s(a, b Token) int { return 0 }\n", true)
 		}
 	}
 	valid := "@lexer\nA = 'a'\n@parser\n@start s = A\n"
